@@ -88,12 +88,37 @@ RangeLocal(r) ==
     \A i \in 1..Len(r) : \A j \in 1..Len(r) :
         (i < j /\ Usable(r[i]) /\ Usable(r[j]) /\ Bases(r[i]) \cap Bases(r[j]) # {}) => r[i].out = r[j].out
 
+\* "Widget": a form widget rendered with the placeholder ph in one slot (tmpl) and with each test string in that
+\* slot (cases).  The rendering must be the template with every occurrence of the placeholder replaced by ONE text
+\* X that is an acceptable escaping of the string (no markup, no bare &, un-escapes to the string); mechanism
+\* layer: X = Escape(string).  Slots that are raw by design (id, name, attributes_string) are not driven.
+OccOf(t, ph) == { i \in 1..(Len(t) - Len(ph) + 1) : HasAt(t, i, ph) }
+Subst(t, ph, occ, X) ==
+    CatMap(LAMBDA i : IF i \in occ THEN X
+                      ELSE IF \E j \in occ : j < i /\ i < j + Len(ph) THEN <<>>
+                      ELSE <<t[i]>>, Len(t))
+WidgetCase(t, ph, occ, in, out) ==
+    LET n == Cardinality(occ)
+        k == CHOOSE i \in occ : \A j \in occ : i <= j
+        total == Len(out) - Len(t) + n * Len(ph)          \* n * Len(X)
+        lx == total \div n
+        X == SubSeq(out, k, k + lx - 1) IN
+    /\ total >= 0 /\ total % n = 0 /\ k + lx - 1 <= Len(out)
+    /\ EscOk(in, X)
+    /\ out = Subst(t, ph, occ, X)
+    /\ (Strict => X = Escape(in))
+WidgetOk ==
+    LET occ == OccOf(Ev.tmpl, Ev.ph) IN
+    /\ occ # {}
+    /\ \A c \in 1..Len(Ev.cases) : WidgetCase(Ev.tmpl, Ev.ph, occ, Ev.cases[c].in, Ev.cases[c].out)
+TWidget == Is("Widget") /\ WidgetOk
+
 TReset == Is("Reset")
 CallOk == \A i \in 1..Len(Ev.r) : Judge(Ev.in, Ev.r[i])
 TCall  == Is("Call") /\ CallOk
 TRange == Is("Range") /\ CallOk /\ RangeLocal(Ev.r)
 TExplain == /\ Explain
-            /\ (Is("Call") /\ ~CallOk) \/ (Is("Range") /\ ~(CallOk /\ RangeLocal(Ev.r)))
+            /\ (Is("Call") /\ ~CallOk) \/ (Is("Range") /\ ~(CallOk /\ RangeLocal(Ev.r))) \/ (Is("Widget") /\ ~WidgetOk)
             /\ PrintT(<<"EXPLAIN-REJECT", l>>)
 
 \* encode with the real encoder, decode the result with the real decoder
@@ -125,6 +150,6 @@ TRow ==
           /\ Ev.rt_b64_ok[k] = 1 /\ Ev.rt_b64[k] = s
 
 TraceInit == Init /\ l = 1
-TraceNext == TReset \/ TCall \/ TRange \/ TExplain \/ TRound \/ TSizes \/ TRow
+TraceNext == TReset \/ TCall \/ TWidget \/ TRange \/ TExplain \/ TRound \/ TSizes \/ TRow
 TraceSpec == TraceInit /\ [][TraceNext]_tvars
 =============================================================================
